@@ -505,7 +505,7 @@ func (m *MsgBridgeCallClaim) GetClaimer() sdk.AccAddress {
 }
 
 func (m *MsgBridgeCallClaim) ClaimHash() []byte {
-	path := fmt.Sprintf("%d/%d/%s/%s/%s/%s/%v/%v/%s", m.BlockHeight, m.EventNonce, m.Sender, m.Refund, m.To, m.TokenContracts, m.Amounts, m.Data, m.Value.String())
+	path := fmt.Sprintf("%d/%d/%s/%s/%s/%s/%v/%v/%s/%s/%s", m.BlockHeight, m.EventNonce, m.Sender, m.Refund, m.To, m.TokenContracts, m.Amounts, m.Data, m.Value.String(), m.Memo, m.TxOrigin)
 	return tmhash.Sum([]byte(path))
 }
 
@@ -604,7 +604,7 @@ func (m *MsgBridgeCallResultClaim) GetSigners() []sdk.AccAddress {
 }
 
 func (m *MsgBridgeCallResultClaim) ClaimHash() []byte {
-	path := fmt.Sprintf("%d/%d/%d/%t/%s", m.BlockHeight, m.EventNonce, m.Nonce, m.Success, m.Cause)
+	path := fmt.Sprintf("%d/%d/%d/%t/%s/%s", m.BlockHeight, m.EventNonce, m.Nonce, m.Success, m.Cause, m.TxOrigin)
 	return tmhash.Sum([]byte(path))
 }
 
